@@ -131,7 +131,8 @@ def register_field_base(reg):
           "C11.required-nonempty": "implies(self.required and typeis(self, 'ref:StringField|ref:ListField|ref:DictField'), truthy(result))",
       },
       raises={"C05.base-never-rejects": "not exact_class(self, 'Field', 'AnyField')",
-              "C03+C15.config-links-kept": LINKS})
+              "C03+C15.config-links-kept": LINKS},
+      defs={"accepts_type": (["f", "r"], "True")})
     C("core:Field.default", params={}, returns="any", modifies=["fresh", "ncalls"],
       assumes={"A.default-is-not-a-schema": "not typeis(self._default, 'ref:BaseField')"},
       ensures={"C12.callable-default-evaluated-anew": "implies(not callable_v(self._default), result == self._default)",
